@@ -32,13 +32,56 @@ ASSUMPTIONS = ["ints are mathematical (exact for Python)", "index names within o
 
 
 def registry():
-    return {"shape_to_strides": cm.shape_to_strides, "_shape_to_key": cm.shape_to_key}
+    reg = {c.name: c for c in cm.ALL}
+    reg.update({c.short: c for c in cm.ALL if "." not in c.name})
+    return reg
+
+
+def _ms_gen(rng, tier):
+    for spec in ref.all_small_specs()[:400] + ref.gen_specs(rng, 100):
+        yield {"self": _mk(spec)}
+
+
+def _as_gen(with_shape):
+    def gen(rng, tier):
+        from pipefunc.map._mapspec import ArraySpec
+        for axes in [(), ("i",), (None,), ("i", "j"), ("i", None), (None, None, "k")]:
+            a = {"self": ArraySpec("a", axes)}
+            if with_shape:
+                for shp in [(), (2,), (1, 3), (2, 2, 2)]:
+                    yield {**a, "shape": shp}
+            else:
+                yield a
+    return gen
+
+
+def _okey_gen(rng, tier):
+    for spec in ref.all_small_specs()[:300] + ref.gen_specs(rng, 100):
+        n_idx = len({x for _, ax in spec["inputs"] for x in ax if x is not None})
+        for rank in {n_idx, n_idx + 1, max(0, n_idx - 1)}:
+            shape = tuple(rng.choice((1, 2, 3)) for _ in range(rank))
+            yield {"self": _mk(spec), "shape": shape, "linear_index": rng.randrange(0, 12)}
+
+
+def _odim_gen(rng, tier):
+    from pipefunc.map._mapspec import ArraySpec
+    for shapes in [{}, {"y": (2,)}, {"y": (2, 3)}, {"z": (1,)}]:
+        for idx in (0, 1, 2):
+            yield {"output": ArraySpec("y", ("i", "k")), "internal_shapes": shapes, "internal_shape_index": idx}
 
 
 def proof_items():
     return [
         ProofItem(cm.shape_to_strides, bounds={"ints": (0, 1, 2, 3), "maxlen": 3}),
         ProofItem(cm.shape_to_key, bounds={"ints": (-1, 0, 1, 2, 3, 5, 7), "maxlen": 3, "per_len": 60}),
+        ProofItem(cm.arrayspec_rank, gen=_as_gen(False)),
+        ProofItem(cm.arrayspec_validate, gen=_as_gen(True)),
+        ProofItem(cm.mapspec_input_names, gen=_ms_gen),
+        ProofItem(cm.mapspec_output_names, gen=_ms_gen),
+        ProofItem(cm.get_output_dim, gen=_odim_gen),
+        ProofItem(cm.mapspec_input_indices, gen=_ms_gen, bounded_only=True,
+                  why_bounded="set comprehension with two generators"),
+        ProofItem(cm.mapspec_output_key, gen=_okey_gen),
     ]
 
 
